@@ -969,6 +969,11 @@ def readGraph(input_file,
                 G.remove_node('\\n')
             except networkx.exception.NetworkXError:
                 pass
+            try:
+                # pydot gives string labels: '10' must not sort before '2'
+                G = networkx.relabel_nodes(G, {v: int(v) for v in G.nodes()})
+            except ValueError:
+                pass
             G = graph_class.normalize(G)
         except TypeError:
             raise ValueError('Parse Error in dot file')
